@@ -266,7 +266,13 @@ def gen_accepted(r, emax=6, tries=60, connected=False, fams=None, want_dod_pos=T
                 g["family"] = name
                 return g
             # re-draw weights (and sometimes masses)
-            wk = r.choice(["grid", "double", "threshold"])
+            wk = r.choice(["grid", "double", "threshold", "equal"])
+            if wk == "equal":
+                # all propagators with the SAME weight (bit-identical), masses as they are: interchangeable lines that differ in mass only
+                Lg = loop_number(g["edges"], list(range(len(g["edges"]))))
+                w_eq = (Lg * D / 2.0 + r.choice([0.25, 0.5, 1.0, 2.0])) / len(g["edges"])
+                g["edges"] = [(a, b, m, w_eq) for (a, b, m, w) in g["edges"]]
+                continue
             thr = wk == "threshold"
             if wk == "threshold":
                 # a small positive overall degree of divergence: with few external vertices many proper subgraphs are
